@@ -52,7 +52,7 @@ def SVD(mat):
             return  v.t(), s, u.t()
         except:
             u, s, v = np.linalg.svd((mat.t()).numpy(),full_matrices=False)
-            return  tn.tensor(v.t(), dtype = mat.dtype, device = mat.device), tn.tensor(s, dtype = mat.dtype, device = mat.device), tn.tensor(u.t(), dtype = mat.dtype, device = mat.device)
+            return  tn.tensor(v.T, dtype = mat.dtype, device = mat.device), tn.tensor(s, dtype = mat.dtype, device = mat.device), tn.tensor(u.T, dtype = mat.dtype, device = mat.device)
     # u, s, v = tn.linalg.svd(mat,full_matrices=False)
     # return u, s, v
 
